@@ -26,6 +26,7 @@ func c17(c *Ctx) {
 	c17R5(c)
 	bufferOwnershipRule(c, "R6")
 	c17R7(c)
+	headerEqualsRule(c, c.R.Rule("R8", "whole-header comparison: PartSet.HasHeader is PartSetHeader.Equals on the set's header, which compares Total and Hash", 2))
 }
 
 func c17R1(c *Ctx) {
